@@ -21,7 +21,7 @@ TRUSTED = ["tr M^2 <= (tr M)^2 for positive semidefinite M (only used for S2 >= 
 
 
 def configs(tier):
-    out = [{"part": "swap", "n": 3}]
+    out = [{"part": "swap", "n": 3}, {"part": "swap", "n": 4}]
     nmax = 2 if tier == "quick" else 3
     for n in range(1, nmax + 1):
         for A in itertools.chain.from_iterable(itertools.combinations(range(n), k) for k in range(n + 1)):
@@ -58,7 +58,8 @@ def _swap(ctx, cfg):
     rows = torch.tensor(list(itertools.product((0., 1.), repeat=n)), dtype=torch.double)
     s1, s2 = rows.clone(), torch.flip(rows, [0]).clone()
     regions = []
-    for A in itertools.chain.from_iterable(itertools.combinations(range(n), k) for k in range(n + 1)):
+    # a region is a set of sites: every listing order (and, for n = 4, listings such as [0, 3, 2] whose ends look like a block)
+    for A in itertools.chain.from_iterable(itertools.permutations(range(n), k) for k in range(n + 1)):
         A = list(A)
         regions += [("list", A), ("array", np.array(A, dtype=int)), ("tensor", torch.tensor(A, dtype=torch.long))]
         if len(A) == 1:
